@@ -85,7 +85,9 @@ for _i, _c in enumerate(_CODECS):
     RAW_FILES.append(('enc%d.py' % _i, _decl + [b'"""doc"""\nclass E: pass\n', b'x = "caf\xe9 \xff"\n', b'"""\xc3\xa9"""\ndef f(): pass\n'][_i % 3]))
 RAW_FILES.append(('bom_cookie.py', b'\xef\xbb\xbf# coding: latin-1\nx = 1\n'))
 RAW_FILES.append(('longline.py', b'x = "' + b'a' * 200000 + b'"\n'))
-RAW_FILES.append(('bigint.py', b'X = 0x' + b'F' * 5000 + b'\nY = ' + b'9' * 5000 + b'\ndef f(a=0b' + b'1' * 20000 + b'): pass\n'))
+RAW_FILES.append(('bigint.py', b'X = 0x' + b'F' * 5000 + b'\ndef f(a=0b' + b'1' * 20000 + b', b=-0o' + b'7' * 6000 + b'): pass\nZ = [0x' + b'1' * 4000 + b', 1]\n'))
+RAW_FILES.append(('bigdec.py', b'Y = ' + b'9' * 5000 + b'\n'))   # refused by the parser itself
+RAW_FILES.append(('deepann.py', b'x: "' + b'-' * 3000 + b'1" = 1\ndef f(a: "' + b'(' * 300 + b'int' + b')' * 300 + b'", b: "' + b'[' * 400 + b']' * 400 + b'"): pass\nclass C("' + b'~' * 3000 + b'B"): pass\n'))
 
 PRIVACY_PATTERNS = ['**', '**.*', '*', 'pkg.**', '**.ghost', '**.C', '**.Base', '**.f', '**.m', '**.x', '**._p', '**.D.*', 'pkg.dep', 'pkg.mod', 'pkg.sub', 'pkg.sub.**', 'pkg.mod.*', 'pkg.dep.Base', 'pkg.dep.Base.m',
                     'dep', 'dep.Base', 'mod.C', 'pkg', '**.I', '**.__init__', '**.E', '*.mod.C.f', '**.UPPER', 'pkg.sib', '**.g', '**.[CD]', 'pkg.*.?']
